@@ -152,6 +152,22 @@ def literal_modules(start, tier):
             mods.append(Module(f'm{n:04d}', f'literal {lit} -> {ty} via `Default{form.format(lit)}` shape{shape}', body, [h],
                                sample=dict(type_definition=decl), functions=FUNCTIONS, classes=cls))
             n += 1
+    # the derive input produced by a user macro: an `$e:expr` fragment reaches the derive inside an invisible (None-delimited) group
+    for k, (frag, expr, want) in enumerate([('expr', 'BASE + 3', '7'), ('expr', '(BASE + 3)', '7'), ('expr', '5', '5'), ('literal', '9', '9'), ('tt', 'BASE', '4')]):
+        for form in ([' = $e', '(expression = $e)'] if tier == 'quick' else [' = $e', '(expression = $e)', '(expr($e))']):
+            if tier == 'quick' and (k + len(form)) % 2:
+                continue
+            decl = ('pub const BASE: u8 = 4;\nmacro_rules! mk {\n    ($e:' + frag + ') => {\n        #[derive(Educe)]\n        #[educe(Default)]\n'
+                    '        pub struct Ty {\n            #[educe(Default' + form + ')]\n            pub a: u8,\n            pub b: u8,\n        }\n    };\n}\nmk!(' + expr + ');\n')
+            h = Harness('h_macro', unwind=4, covers=['reached'])
+            body = decl + h.attrs() + f'''pub fn h_macro() {{
+    let d = <Ty as Default>::default();
+    kani::cover!(true, "reached");
+    assert!(d.a == {want} && d.b == 0, "default expression forwarded through a macro_rules fragment");
+}}
+'''
+            mods.append(Module(f'm{n:04d}', f'`Default{form}` with $e:{frag} = `{expr}` forwarded by a user macro_rules (None-delimited group)', body, [h], sample=dict(type_definition=decl), functions=FUNCTIONS))
+            n += 1
     # `new` with an explicit boolean: `new = false` / `new(false)` generate no `new()` (the user's own inherent `new` must not clash),
     # `new = true` / `new(true)` generate it
     for form in ['new = false', 'new(false)', 'new = true', 'new(true)']:
